@@ -61,6 +61,13 @@ package cache
 // Creating an entry reserves the header with zero bytes only: until Close has written the
 // real header no digest in the file can verify, whatever prefix of the body has reached the
 // disk.  ghostint("fwcount"/"fwlen"/"fwzero") are maintained by (*os.File).Write.
+// Write hands the compressor exactly the bytes it was given, in one piece: whatever is written
+// to an entry before Close is what the compressor saw (no part skipped, repeated or reordered).
+//@ func (f *File) Write(p []byte) (n int, err error)
+//@   prop C13
+//@   requires !isnil(f)
+//@   callpre Write(q): sameslice(q, p)
+
 //@ external func flate.NewWriter(w io.Writer, level int) (z *flate.Writer, err error)
 //@   ensures isnil(err) ==> !isnil(z) && fresh(z)
 //@   assigns nothing
